@@ -62,6 +62,15 @@ PROPS = {
         'assumptions': ['the regex crate implements the two literal operand patterns as their syntax says (contract keyed on the literal text, which the extraction rule matches verbatim)', 'str::parse::<u64> on a non-empty digit string: Ok(value) iff it fits'],
         'not_decided': ['that each numeric primary feeds the right measured value into ComparableValue::matches is decided per primary in units stat/time (C13, C15)'],
     },
+    'C15': {
+        'level': 'proof',
+        'explanation': 'FileTimeMatcher/FileAgeRangeMatcher::matches_impl (bodies verbatim): for non-negative ages the operand is compared with floor(floor((now - t)/1s)/86400) resp. /60 on the timestamp the letter names (get_file_time: a access, c status change, m modification); future timestamps only match -N; NewerMatcher: mtime(entry) > mtime(F) strictly at nanosecond resolution; NewerOptionMatcher::{new, matches_impl}: X(entry) > Y(F) with the letter table of from_str.',
+        'assumptions': ['std::time: duration_since is Ok(a-b) iff a >= b else Err carrying b-a; Duration::as_secs is floor; Metadata::{accessed, modified, created} and ChangeTime::changed return the timestamps of the record',
+                        'timestamps and the clock are within +-2^61 s of each other (otherwise `as_secs() as i64` wraps)',
+                        '`now` is fixed when find starts: Dependencies::now (not extracted); -daystart arithmetic (chrono) not covered',
+                        'the entry metadata handed to the time tests is the record the follow mode selects (C13, unit entry)'],
+        'not_decided': ['parse_str_to_newer_args (regex) is covered by unit parse/C11'],
+    },
 }
 for k in PROPS.values():
     k.setdefault('trusted', [])
